@@ -128,6 +128,23 @@ CHECKS = {
         "assignment) the network is conjugated tensor by tensor with defaults, the bra-like dangling legs are phase-flipped, and <psi|psi> is contracted along every route (2 tensors) / every linear order "
         "from every starting pair plus ket-net x bra-net joins (3 tensors): the value must equal the squared norm of the contracted ket network and no label may remain.",
    note="Trusted: R-graded conj; exact integer arithmetic for norms. The norm law is demanded as stated (all kets, or phase_dual=True)."),
+ "C18": dict(engine="E-enum", design_ref="DESIGN.md 5 C18, 4.7",
+   technique="exhaustive enumeration of operator strings x basis layouts on the real element builder, and of charge-conserving operators x unit state tensors on the real operator arrays; reference = Jordan-Wigner matrices (R-fock)",
+   text="(A) Every operator string of length <=4 over two modes (340), alone and summed with every string of the same net effect, on every basis layout (two one-mode sites with every subset/order of the "
+        "occupation states; one two-mode site with every order of the four states, both operator orders in the doubly occupied state and every 2-/3-state subset), and strings of length <=3 over three "
+        "modes on three sites, given as FermionicOperators and as (label, symbol) pairs: the computed elements must equal the Jordan-Wigner vacuum expectation values. (B) For Z2, U1 (spinless and "
+        "spinful maps), Z2Z2 and U1U1, complete and incomplete bases, 1-2 sites: the matrix of psi -> tensordot(G, psi) measured on the unit state tensor of every basis state (every total charge, odd ones "
+        "with a label) must equal S.H.S for one diagonal sign matrix S solved from a generic connected reference operator - for every charge-conserving normal-ordered string of length 2 and 4, its "
+        "Hermitian completion (Hermitian matrix, exact spectrum), products of operator arrays versus the array of the product operator, and the five model builders with several parameter sets.",
+   note="Trusted: Jordan-Wigner matrices as the meaning of second quantisation; tolerance 1e-9..1e-12. Only charge-conserving operators can be represented and are exercised."),
+ "C19": dict(engine="E-enum", design_ref="DESIGN.md 5 C19",
+   technique="exhaustive enumeration of labelled simple graphs x edge-listing / labelling / coefficient-form variants on the real Hamiltonian builders; reference = the lattice Hamiltonian as Jordan-Wigner matrices on all lattice modes",
+   text="For every labelled simple graph on 2-5 sites (1094 graphs; spinless 6-site graphs sliced in thorough), with edges listed in ascending, descending and mixed orientation and two list orders, "
+        "sites labelled by ints, tuples and strings, and coefficients given as scalars, dicts keyed in the reversed orientation and callables with bond- and site-dependent values, the two-site arrays "
+        "returned by the spinless (Z2, U1) and spinful (Z2, U1, Z2Z2, U1U1) builders are read out with the documented charge maps, lifted to full-lattice operators and summed; the sum must equal "
+        "sum_bonds(-t hop + V n n) + sum_sites(U n_up n_down - mu n) exactly once per bond and per site. parse_edges_to_site_info is checked on the same inputs: one bond name per edge on exactly its two ends with "
+        "opposite directions, coordination = degree, consistent lengths.",
+   note="Trusted: Jordan-Wigner reference; conversion factor (-1)**(p(i')p(j')) between the documented element convention and the true dual basis (validated against C18). quimb-based builders (tfim, heisenberg) need a package that is not installed."),
 }
 
 _ALL = ["C%02d" % i for i in range(1, 21)]
